@@ -309,7 +309,7 @@ SolInputs(c) ==
 Meets(x, c, inp) ==
   /\ c.given \in {"cq", "ct"} =>
        \A i \in DOMAIN c.solutes : ~IsZero(Measure(x, c.du[i])) /\ Conc(x, c.solutes[i], c.nu[i], c.du[i]) = inp.conc[i]
-  /\ c.given \in {"cq", "qt"} =>
+  /\ (c.given \in {"cq", "qt"} /\ ~c.solventHoldsSolute) =>        \* (else the stated quantity is what is ADDED)
        \A i \in DOMAIN c.solutes : Single1(c.solutes[i], x[c.solutes[i]], c.qu[i]) = inp.qty[i]
   /\ c.given \in {"ct", "qt"} => Measure(x, c.tu) = inp.total
 
@@ -506,7 +506,8 @@ SolutionMeets ==
   [][(IsOp("create_solution") /\ Ok) =>
        LET e == last'
            x == ves'[e.n].w[1].c
-           c == [solutes |-> e.solutes, given |-> e.given, nu |-> e.nu, du |-> e.du, qu |-> e.qu, tu |-> e.tu]
+           c == [solutes |-> e.solutes, given |-> e.given, nu |-> e.nu, du |-> e.du, qu |-> e.qu, tu |-> e.tu,
+                 solventHoldsSolute |-> (e.solvIsVessel /\ \E i \in DOMAIN e.solutes : ~IsZero(ves[e.solvent].w[1].c[e.solutes[i]]))]
            inp == [conc |-> e.conc, qty |-> e.qty, total |-> e.total]
        IN  /\ Meets(x, c, inp)
            /\ NonNegC(x)
